@@ -2,12 +2,18 @@ package props
 
 import (
 	"bytes"
+	"crypto/sha256"
 	"fmt"
 	"io"
+	"os"
+	"path/filepath"
 	"sort"
 	"strings"
 
+	"github.com/ipfs/go-cid"
+	"github.com/ipld/go-car/cmd/car/lib"
 	carv2 "github.com/ipld/go-car/v2"
+	"github.com/multiformats/go-multicodec"
 
 	"verif/drv"
 	"verif/kit"
@@ -23,10 +29,21 @@ type C13Mut struct {
 type C13Case struct {
 	Roots   string   `json:"roots"`
 	Seq     []string `json:"seq"`
-	Cont    string   `json:"cont"` // v1 v1null v2 v2idx v2idxpad
+	Cont    string   `json:"cont"` // v1 v1null v2 v2idx v2idxpad v2null v2trail
 	ZeroEOF bool     `json:"zeroeof,omitempty"`
 	MaxSect uint64   `json:"maxsect,omitempty"`
-	Mut     *C13Mut  `json:"mut,omitempty"`
+	MaxHdr  uint64   `json:"maxhdr,omitempty"`
+	// Files: 0 = in-memory sources only; 1 = the file-backed entry points also run: NewReader over
+	// *os.File and OpenReader (mmap) on the seed and on every truncation, *os.File and
+	// cmd/car/lib.InspectCar also on every mutant the scan accepts (ZeroEOF cases, where InspectCar's
+	// hard-coded options apply); 2 = all three on every input NewReader accepts.
+	Files int `json:"files,omitempty"`
+	// Vars: also observe every judged input through the in-memory source kinds and call orders.
+	Vars bool `json:"vars,omitempty"`
+	// MutSet: "" = every byte position is mutated/truncated; "struct" = only structural positions
+	// (everything except the interior of block data; see c13Positions).
+	MutSet string  `json:"mutset,omitempty"`
+	Mut    *C13Mut `json:"mut,omitempty"`
 }
 
 // scanStats is what a verifying scan yields, rendered canonically.
@@ -95,81 +112,73 @@ func countsStr(m map[uint64]uint64) string {
 	return sb.String()
 }
 
-func c13Check(x *kit.Ctx, cs C13Case, input []byte, mut *C13Mut) {
-	o := drv.Opts{ZeroEOF: cs.ZeroEOF, MaxSect: cs.MaxSect}
-	rc := C13Case{cs.Roots, cs.Seq, cs.Cont, cs.ZeroEOF, cs.MaxSect, mut}
-	rd, err := carv2.NewReader(bytes.NewReader(input), o.List()...)
-	x.Eval(1)
+func codeCounts(m map[multicodec.Code]uint64) map[uint64]uint64 {
+	g := map[uint64]uint64{}
+	for k, v := range m {
+		g[uint64(k)] = v
+	}
+	return g
+}
+
+// c13Oracle is everything the verifying scan (and the bytes of the input) say about one input.
+type c13Oracle struct {
+	input    []byte
+	version  uint64 // from the bytes (reference header decode) when verOK, else the Reader's
+	verOK    bool
+	hdr      refcar.V2Header // version 2 only, from the bytes
+	scanOK   bool
+	idxOK    bool
+	idxCodec uint64
+	want     bool // scanOK && idxOK
+	ss       scanStats
+	sr       *drv.ReadResult
+}
+
+// c13RefVersion decodes the first length-prefixed header of the input (CARv1 header or CARv2
+// pragma) with the reference codec and returns its version.
+func c13RefVersion(input []byte) (uint64, bool) {
+	hl, n, err := refcar.Uvarint(input)
+	if err != nil || hl > uint64(len(input)-n) {
+		return 0, false
+	}
+	h, err := refcar.DecodeHeaderBody(input[n : n+int(hl)])
 	if err != nil {
-		x.Outcome("not-a-container")
+		return 0, false
+	}
+	return h.Version, true
+}
+
+// c13Judge compares one observation of Inspect (primary or a source/call-order variant) with
+// the oracle. tag "" is the primary observation (bytes.Reader, one call on a fresh Reader).
+func c13Judge(x *kit.Ctx, rc C13Case, tag string, o *c13Oracle, st carv2.Stats, ierr error) (ok bool) {
+	ok = true
+	prefix := "c13:"
+	if tag != "" {
+		prefix = "c13:" + tag + ":"
+	}
+	if (ierr == nil) != o.want {
+		x.FailCase(rc, fmt.Sprintf("%sverdict:inspect=%v:scan=%v:index=%v", prefix, ierr == nil, o.scanOK, o.idxOK), "[%s] Inspect err=%v but verifying scan ok=%v (open=%v err=%v) index codec readable=%v", tag, ierr, o.scanOK, o.sr.OpenErr, o.sr.Err, o.idxOK)
+		return false
+	}
+	if !o.want || !o.ss.ok {
 		return
 	}
-	st, ierr := rd.Inspect(true)
-	// The payload window as the Reader defines it (fixed-offset v2 header), computed here
-	// from the bytes; both scans below run over exactly this window.
-	window := input
-	if rd.Version == 2 {
-		h := refcar.ParseV2Header(input[11:51])
-		if h.DataOffset > uint64(len(input)) {
-			window = nil
-		} else {
-			window = input[h.DataOffset:]
-			if h.DataSize < uint64(len(window)) {
-				window = window[:h.DataSize]
-			}
-		}
-	}
-	// the hash-verifying scan of all blocks (library's BlockReader over the window)
-	sr := drv.Read("br-bytes", x.Dir, window, o)
-	x.Transition(len(sr.Blocks) + 2)
-	scanOK := sr.OpenErr == nil && sr.Err == nil
-	// independent scan of the same payload window
-	refOK, refSame := c13RefScan(window, cs.ZeroEOF, cs.MaxSect, sr)
-	if refOK != scanOK || (scanOK && !refSame) {
-		x.Outcome("oracle-ambiguous")
-		x.Count("oracle_ambiguous", 1)
-		return
-	}
-	// index codec readable when the header claims an index
-	idxOK := true
-	var idxCodec uint64
-	if rd.Version == 2 && rd.Header.IndexOffset != 0 {
-		off := rd.Header.IndexOffset
-		if off > uint64(len(input)) {
-			idxOK = false
-		} else if c, _, err := refcar.Uvarint(input[off:]); err != nil {
-			idxOK = false
-		} else {
-			idxCodec = c
-		}
-	}
-	want := scanOK && idxOK
-	if (ierr == nil) != want {
-		x.FailCase(rc, fmt.Sprintf("c13:verdict:inspect=%v:scan=%v:index=%v", ierr == nil, scanOK, idxOK), "Inspect(true) err=%v but verifying scan ok=%v (open=%v err=%v) index codec readable=%v", ierr, scanOK, sr.OpenErr, sr.Err, idxOK)
-		return
-	}
-	if !want {
-		x.Outcome("both-reject")
-		return
-	}
-	x.Outcome("both-accept")
-	x.Nontrivial(fmt.Sprintf("%x", input))
-	ss := statsOf(sr.Roots, sr.Blocks)
-	if !ss.ok {
-		x.Count("oracle_ambiguous", 1)
-		return
-	}
+	ss := o.ss
 	bad := func(what string, got, w any) {
-		x.FailCase(rc, "c13:stat:"+what, "Inspect reports %s=%v, the scan gives %v", what, got, w)
+		ok = false
+		x.FailCase(rc, prefix+"stat:"+what, "[%s] Inspect reports %s=%v, the scan gives %v", tag, what, got, w)
 	}
-	if st.Version != rd.Version {
-		bad("version", st.Version, rd.Version)
+	if st.Version != o.version {
+		bad("version", st.Version, o.version)
 	}
-	if rd.Version == 2 {
-		h := refcar.ParseV2Header(input[11:51])
+	if o.version == 2 {
+		h := o.hdr
 		if st.Header.DataOffset != h.DataOffset || st.Header.DataSize != h.DataSize || st.Header.IndexOffset != h.IndexOffset || st.Header.Characteristics.Hi != h.CharHi || st.Header.Characteristics.Lo != h.CharLo {
 			bad("header", st.Header, h)
 		}
+	} else if st.Header != (carv2.Header{}) {
+		// documented: "A CARv1 will return an uninitialized Header value"
+		bad("header", st.Header, "zero Header for a CARv1")
 	}
 	if !sameRoots(rawRootsOf(st), ss.roots) {
 		bad("roots", rawRootsOf(st), ss.roots)
@@ -188,22 +197,327 @@ func c13Check(x *kit.Ctx, cs C13Case, input []byte, mut *C13Mut) {
 	if st.MinBlockLength != mn || st.AvgBlockLength != av || st.MaxBlockLength != mx {
 		bad("block-lengths", []uint64{st.MinBlockLength, st.AvgBlockLength, st.MaxBlockLength}, []uint64{mn, av, mx})
 	}
-	gc := map[uint64]uint64{}
-	for k, v := range st.CodecCounts {
-		gc[uint64(k)] = v
+	if g := countsStr(codeCounts(st.CodecCounts)); g != countsStr(ss.codecs) {
+		bad("codec-counts", g, countsStr(ss.codecs))
 	}
-	if countsStr(gc) != countsStr(ss.codecs) {
-		bad("codec-counts", countsStr(gc), countsStr(ss.codecs))
+	if g := countsStr(codeCounts(st.MhTypeCounts)); g != countsStr(ss.mhs) {
+		bad("mh-counts", g, countsStr(ss.mhs))
 	}
-	gm := map[uint64]uint64{}
-	for k, v := range st.MhTypeCounts {
-		gm[uint64(k)] = v
+	if uint64(st.IndexCodec) != o.idxCodec {
+		bad("index-codec", uint64(st.IndexCodec), o.idxCodec)
 	}
-	if countsStr(gm) != countsStr(ss.mhs) {
-		bad("mh-counts", countsStr(gm), countsStr(ss.mhs))
+	return
+}
+
+// c13JudgeReport compares the Report of cmd/car/lib.InspectCar (full validation) with the oracle.
+func c13JudgeReport(x *kit.Ctx, rc C13Case, o *c13Oracle, rep *lib.Report, err error) {
+	const prefix = "c13:report:"
+	if (err == nil) != o.want {
+		x.FailCase(rc, fmt.Sprintf("%sverdict:inspect=%v:scan=%v:index=%v", prefix, err == nil, o.scanOK, o.idxOK), "lib.InspectCar(full) err=%v but verifying scan ok=%v (open=%v err=%v) index codec readable=%v", err, o.scanOK, o.sr.OpenErr, o.sr.Err, o.idxOK)
+		return
 	}
-	if uint64(st.IndexCodec) != idxCodec {
-		bad("index-codec", uint64(st.IndexCodec), idxCodec)
+	if !o.want || !o.ss.ok {
+		return
+	}
+	ss := o.ss
+	bad := func(what string, got, w any) {
+		x.FailCase(rc, prefix+what, "lib.InspectCar reports %s=%v, the scan gives %v", what, got, w)
+	}
+	if rep.Version != int(o.version) {
+		bad("version", rep.Version, o.version)
+	}
+	var wantRoots []string
+	for _, r := range ss.roots {
+		c, cerr := cid.Cast(r)
+		if cerr != nil {
+			return
+		}
+		wantRoots = append(wantRoots, c.String())
+	}
+	if strings.Join(rep.Roots, ",") != strings.Join(wantRoots, ",") {
+		bad("roots", []string(rep.Roots), wantRoots)
+	}
+	if rep.RootsPresent != ss.rootPresent {
+		bad("roots-present", rep.RootsPresent, ss.rootPresent)
+	}
+	if rep.BlockCount != uint64(len(ss.cidLens)) {
+		bad("block-count", rep.BlockCount, len(ss.cidLens))
+	}
+	mn, av, mx := minAvgMax(ss.cidLens)
+	if rep.CidLength != (lib.Stat{Min: mn, Mean: av, Max: mx}) {
+		bad("cid-lengths", rep.CidLength, []uint64{mn, av, mx})
+	}
+	mn, av, mx = minAvgMax(ss.blkLens)
+	if rep.BlkLength != (lib.Stat{Min: mn, Mean: av, Max: mx}) {
+		bad("block-lengths", rep.BlkLength, []uint64{mn, av, mx})
+	}
+	if g := countsStr(codeCounts(rep.Codecs)); g != countsStr(ss.codecs) {
+		bad("codec-counts", g, countsStr(ss.codecs))
+	}
+	if g := countsStr(codeCounts(rep.Hashes)); g != countsStr(ss.mhs) {
+		bad("mh-counts", g, countsStr(ss.mhs))
+	}
+	if o.version == 2 {
+		if !bytes.Equal(rep.Characteristics, o.input[11:27]) {
+			bad("characteristics", fmt.Sprintf("%x", rep.Characteristics), fmt.Sprintf("%x", o.input[11:27]))
+		}
+		if rep.DataOffset != o.hdr.DataOffset {
+			bad("data-offset", rep.DataOffset, o.hdr.DataOffset)
+		}
+		if rep.DataLength != o.hdr.DataSize {
+			bad("data-length", rep.DataLength, o.hdr.DataSize)
+		}
+		if rep.IndexOffset != o.hdr.IndexOffset {
+			bad("index-offset", rep.IndexOffset, o.hdr.IndexOffset)
+		}
+		wantIdx := "(none)"
+		if o.idxCodec != 0 {
+			wantIdx = multicodec.Code(o.idxCodec).String()
+		}
+		if rep.IndexType != wantIdx {
+			bad("index-type", rep.IndexType, wantIdx)
+		}
+	}
+	// the rendered report names every root as often as the header lists it
+	txt := rep.String()
+	mult := map[string]int{}
+	for _, r := range wantRoots {
+		mult[r]++
+	}
+	for r, n := range mult {
+		if strings.Count(txt, r) < n {
+			bad("roots-string", fmt.Sprintf("%q", rep.Roots.String()), wantRoots)
+		}
+	}
+}
+
+// c13Check judges one input. It returns the outcome class of the primary observation.
+func c13Check(x *kit.Ctx, cs C13Case, cf *c13File, input []byte, mut *C13Mut) string {
+	o := drv.Opts{ZeroEOF: cs.ZeroEOF, MaxSect: cs.MaxSect, MaxHeader: cs.MaxHdr}
+	opts := o.List()
+	rc := cs
+	rc.Mut = mut
+	rd, err := carv2.NewReader(bytes.NewReader(input), opts...)
+	x.Eval(1)
+	if err != nil {
+		x.Outcome("not-a-container")
+		return "not-a-container"
+	}
+	st, ierr := rd.Inspect(true)
+
+	or := &c13Oracle{input: input}
+	// Version and CARv2 header from the bytes, not from the Reader under test. When the reference
+	// decoder cannot read a first header that go-car accepted (go-car's CBOR decoding is laxer),
+	// the Reader's version is used and the version statistic is only checked for consistency.
+	or.version, or.verOK = c13RefVersion(input)
+	if !or.verOK {
+		or.version = rd.Version
+		x.Count("version_not_reference_decodable", 1)
+	} else if or.version != rd.Version {
+		x.FailCase(rc, "c13:stat:version", "Reader.Version=%d but the first header of the input says version %d", rd.Version, or.version)
+		return "fail"
+	}
+	// The payload window as the format defines it (fixed-offset v2 header), computed here
+	// from the bytes; both scans below run over exactly this window.
+	window := input
+	if or.version == 2 {
+		or.hdr = refcar.ParseV2Header(input[11:51])
+		h := or.hdr
+		if h.DataOffset > uint64(len(input)) {
+			window = nil
+		} else {
+			window = input[h.DataOffset:]
+			if h.DataSize < uint64(len(window)) {
+				window = window[:h.DataSize]
+			}
+		}
+	}
+	// the hash-verifying scan of all blocks (library's BlockReader over the window)
+	sr := drv.Read("br-bytes", x.Dir, window, o)
+	or.sr = sr
+	x.Transition(len(sr.Blocks) + 2)
+	or.scanOK = sr.OpenErr == nil && sr.Err == nil
+	// independent scan of the same payload window
+	refOK, refSame := c13RefScan(window, cs.ZeroEOF, cs.MaxSect, cs.MaxHdr, sr)
+	if refOK != or.scanOK || (or.scanOK && !refSame) {
+		x.Outcome("oracle-ambiguous")
+		x.Count("oracle_ambiguous", 1)
+		return "oracle-ambiguous"
+	}
+	// index codec readable when the header claims an index
+	or.idxOK = true
+	if or.version == 2 && or.hdr.IndexOffset != 0 {
+		off := or.hdr.IndexOffset
+		if off > uint64(len(input)) {
+			or.idxOK = false
+		} else if c, _, err := refcar.Uvarint(input[off:]); err != nil {
+			or.idxOK = false
+		} else {
+			or.idxCodec = c
+		}
+	}
+	or.want = or.scanOK && or.idxOK
+	if or.want {
+		or.ss = statsOf(sr.Roots, sr.Blocks)
+		if !or.ss.ok {
+			x.Count("oracle_ambiguous", 1)
+		}
+	}
+
+	// ---- further observations, all made before anything is judged (so that a later call that
+	// corrupts an earlier result through shared state is seen)
+	type obs struct {
+		tag string
+		st  carv2.Stats
+		err error
+	}
+	var more []obs
+	if cs.Vars {
+		// call order / state across calls, on the bytes.Reader source
+		st2, ierr2 := rd.Inspect(true) // second call on the same Reader
+		more = append(more, obs{"twice", st2, ierr2})
+		if or.want {
+			// skip mode (Seek instead of SumStream): when full validation succeeds, skipping the
+			// block data must succeed with the same statistics (third call on the same Reader)
+			st3, ierr3 := rd.Inspect(false)
+			more = append(more, obs{"nohash", st3, ierr3})
+		}
+		if r2, err := carv2.NewReader(bytes.NewReader(input), opts...); err == nil {
+			r2.Roots() // caches the roots; Inspect must still start at the first section
+			s, e := r2.Inspect(true)
+			more = append(more, obs{"roots-first", s, e})
+		}
+		if r3, err := carv2.NewReader(bytes.NewReader(input), opts...); err == nil {
+			if dr, err := r3.DataReader(); err == nil {
+				var five [5]byte
+				dr.Read(five[:])
+			}
+			s, e := r3.Inspect(true)
+			more = append(more, obs{"dr-partial", s, e})
+		}
+		// source capability kinds (in memory)
+		for _, k := range [...]string{"at", "eofat"} {
+			var src io.ReaderAt
+			if k == "at" {
+				src = drv.OnlyReaderAt{R: bytes.NewReader(input)}
+			} else {
+				src = drv.EOFAt{B: input}
+			}
+			rk, err := carv2.NewReader(src, opts...)
+			if err != nil {
+				// not accepted as a container through this source: outside the property (C07's
+				// domain), unless it is an unmutated seed
+				x.Count("src_open_rejects:"+k, 1)
+				if mut == nil {
+					x.FailCase(rc, "c13:seed:open:"+k, "NewReader over the %s source rejects the unmutated seed that it accepts over bytes.Reader: %v", k, err)
+				}
+				continue
+			}
+			s, e := rk.Inspect(true)
+			more = append(more, obs{k, s, e})
+		}
+	}
+	x.Count("inspect_calls", 1+len(more))
+
+	// the other observations are judged only when the primary one is right (a defect of the scan
+	// itself would otherwise be reported once per observation)
+	if !c13Judge(x, rc, "", or, st, ierr) {
+		return "fail"
+	}
+	for _, m := range more {
+		c13Judge(x, rc, m.tag, or, m.st, m.err)
+	}
+	out := "both-reject"
+	if or.want {
+		out = "both-accept"
+		x.Nontrivial(fmt.Sprintf("%x", input))
+	}
+	x.Outcome(out)
+
+	// ---- file-backed entry points
+	if cs.Files == 2 || (cs.Files == 1 && (mut == nil || mut.Kind == "trunc" || (or.want && cs.ZeroEOF))) {
+		c13Files(x, cs, rc, cf, or, opts, cs.Files == 2 || mut == nil || mut.Kind == "trunc")
+	}
+	return out
+}
+
+// c13File is the scratch file of one case, rewritten in place for every input that goes to the
+// file-backed entry points.
+type c13File struct {
+	path string
+	f    *os.File
+}
+
+func (cf *c13File) set(b []byte) *os.File {
+	if cf.f == nil {
+		f, err := os.OpenFile(cf.path, os.O_RDWR|os.O_CREATE|os.O_TRUNC, 0o644)
+		if err != nil {
+			panic(err)
+		}
+		cf.f = f
+	}
+	if _, err := cf.f.WriteAt(b, 0); err != nil {
+		panic(err)
+	}
+	if err := cf.f.Truncate(int64(len(b))); err != nil {
+		panic(err)
+	}
+	if _, err := cf.f.Seek(0, io.SeekStart); err != nil {
+		panic(err)
+	}
+	return cf.f
+}
+
+func (cf *c13File) close() {
+	if cf.f != nil {
+		cf.f.Close()
+		os.Remove(cf.path)
+		cf.f = nil
+	}
+}
+
+// c13Files drives the entry points that need a file: NewReader over an *os.File, OpenReader
+// (mmap; only when withMmap) and cmd/car/lib.InspectCar (which hard-codes ZeroLengthSectionAsEOF
+// and default limits, so it only runs in cases with exactly those options).
+func c13Files(x *kit.Ctx, cs, rc C13Case, cf *c13File, or *c13Oracle, opts []carv2.Option, withMmap bool) {
+	f := cf.set(or.input) // positioned at offset 0, as a freshly opened file is
+	x.Count("file_inputs", 1)
+	if rd, err := carv2.NewReader(f, opts...); err != nil {
+		x.Count("src_open_rejects:osfile", 1)
+		if rc.Mut == nil {
+			x.FailCase(rc, "c13:seed:open:osfile", "NewReader over *os.File rejects the unmutated seed: %v", err)
+		}
+	} else {
+		s, e := rd.Inspect(true)
+		c13Judge(x, rc, "osfile", or, s, e)
+	}
+	if withMmap {
+		x.Count("mmap_inputs", 1)
+		if rd, err := carv2.OpenReader(cf.path, opts...); err != nil {
+			x.Count("src_open_rejects:mmap", 1)
+			if rc.Mut == nil {
+				x.FailCase(rc, "c13:seed:open:mmap", "OpenReader rejects the unmutated seed: %v", err)
+			}
+		} else {
+			s, e := rd.Inspect(true)
+			rd.Close()
+			c13Judge(x, rc, "mmap", or, s, e)
+		}
+	}
+	if cs.ZeroEOF && cs.MaxSect == 0 && cs.MaxHdr == 0 {
+		rep, err := lib.InspectCar(f, true)
+		if or.version == 1 && err != nil && err.Error() == "unexpected data after EOF: 1" {
+			// C19's known finding c19:inspect-full-v1:trailing-data-probe: the probe Reads from the
+			// handle's position, which is still 0 because Inspect used ReadAt. Out of C13's scope;
+			// hand the file over positioned at its end, where the probe is correct.
+			x.Count("c19_trailing_probe_seen", 1)
+			if _, serr := f.Seek(0, io.SeekEnd); serr != nil {
+				panic(serr)
+			}
+			rep, err = lib.InspectCar(f, true)
+		}
+		x.Count("report_inputs", 1)
+		c13JudgeReport(x, rc, or, rep, err)
 	}
 }
 
@@ -217,13 +531,20 @@ func rawRootsOf(st carv2.Stats) [][]byte {
 
 // c13RefScan scans the payload window with the reference codec (lenient about the inner
 // header's version, as the format's section scan is) and compares with the library scan.
-func c13RefScan(window []byte, zeroEOF bool, maxSect uint64, lib *drv.ReadResult) (ok bool, same bool) {
+func c13RefScan(window []byte, zeroEOF bool, maxSect, maxHdr uint64, lib *drv.ReadResult) (ok bool, same bool) {
 	pl, err := refcar.ScanPayload(window, zeroEOF, true)
 	if err != nil {
 		return false, false
 	}
 	if maxSect == 0 {
 		maxSect = 8 << 20
+	}
+	if maxHdr == 0 {
+		maxHdr = 32 << 20
+	}
+	// the header limit bounds the header body (the length its varint announces)
+	if hl, _, err := refcar.Uvarint(window); err != nil || hl > maxHdr {
+		return false, false
 	}
 	for _, s := range pl.Sections {
 		if uint64(len(s.Cid)+len(s.Data)) > maxSect {
@@ -243,31 +564,118 @@ func c13RefScan(window []byte, zeroEOF bool, maxSect uint64, lib *drv.ReadResult
 
 var c13Vals = []int{0x00, 0x01, 0x7f, 0x80, 0xff, -1, -2} // -1: +1, -2: -1
 
-func runC13(c any, x *kit.Ctx) {
-	cs := c.(C13Case)
-	_, rootRaws, nilRoots := kit.Roots(cs.Roots)
+// c13Blk resolves a block name: the shared alphabet plus C13's own additions.
+//
+//	j : dag-json (codec 0x0129, a two-byte codec varint) sha2-256 block
+func c13Blk(name string) refcar.Block {
+	if name == "j" {
+		data := []byte(`{"j":1}`)
+		d := sha256.Sum256(data)
+		return refcar.Block{Cid: refcar.CIDv1(0x0129, refcar.MhSha256, d[:]), Data: data}
+	}
+	return kit.B(name).Ref()
+}
+
+// c13Roots resolves a root-set name: the shared root sets plus "i" (one identity-CID root).
+func c13Roots(name string) ([][]byte, bool) {
+	if name == "i" {
+		return [][]byte{kit.B("i").Raw}, false
+	}
+	_, raws, nilRoots := kit.Roots(name)
+	return raws, nilRoots
+}
+
+// c13Build lays the seed out. It returns the file, the offset of the payload in it and the
+// decoded payload (for the structural positions).
+func c13Build(cs C13Case) (file []byte, base int, pl *refcar.Payload, hdrBody uint64, largest uint64) {
+	rootRaws, nilRoots := c13Roots(cs.Roots)
 	var rb []refcar.Block
-	for _, b := range kit.Bs(cs.Seq) {
-		rb = append(rb, b.Ref())
+	for _, n := range cs.Seq {
+		b := c13Blk(n)
+		rb = append(rb, b)
+		if l := uint64(len(b.Cid) + len(b.Data)); l > largest {
+			largest = l
+		}
 	}
 	payload := refcar.EncodeV1(rootRaws, nilRoots, rb)
 	pl, err := refcar.DecodePayload(payload, false, true)
 	if err != nil {
 		panic(err)
 	}
-	var file []byte
+	hl, _, _ := refcar.Uvarint(payload)
+	hdrBody = hl
+	nulled := append(append([]byte{}, payload...), 0, 0, 0)
 	switch cs.Cont {
 	case "v1":
 		file = payload
 	case "v1null":
-		file = append(append([]byte{}, payload...), 0, 0, 0)
+		file = nulled
 	case "v2":
-		file = refcar.EncodeV2(payload, 0, 0, nil, false)
+		file, base = refcar.EncodeV2(payload, 0, 0, nil, false), 51
 	case "v2idx":
-		file = refcar.EncodeV2(payload, 0, 0, refcar.EncodeIndex(refcar.CodecMhIndexSorted, refcar.RecordsOf(pl, false)), false)
+		file, base = refcar.EncodeV2(payload, 0, 0, refcar.EncodeIndex(refcar.CodecMhIndexSorted, refcar.RecordsOf(pl, false)), false), 51
 	case "v2idxpad":
-		file = refcar.EncodeV2(payload, 2, 1, refcar.EncodeIndex(refcar.CodecIndexSorted, refcar.RecordsOf(pl, false)), false)
+		file, base = refcar.EncodeV2(payload, 2, 1, refcar.EncodeIndex(refcar.CodecIndexSorted, refcar.RecordsOf(pl, false)), false), 53
+	case "v2null":
+		// genuine null padding inside DataSize, no index
+		file, base = refcar.EncodeV2(nulled, 0, 0, nil, false), 51
+	case "v2trail":
+		// no index, bytes after the payload window that belong to nothing
+		file, base = append(refcar.EncodeV2(payload, 0, 0, nil, false), 0x00, 0x01, 0xff), 51
+	default:
+		panic("unknown container " + cs.Cont)
 	}
+	return
+}
+
+// c13Positions lists the byte positions that are mutated / truncated at. For MutSet "struct"
+// the interior of every block's data is left out: kept are the container framing, the header,
+// every section's length varint and CID, the first and last data byte and the data bytes on
+// either side of the 32 KiB copy-chunk boundary and of the 64 KiB (16-bit) boundary.
+func c13Positions(cs C13Case, file []byte, base int, pl *refcar.Payload) []int {
+	skip := map[int]bool{}
+	if cs.MutSet == "struct" {
+		for _, s := range pl.Sections {
+			d0 := base + int(s.Offset+s.Len) - len(s.Data) // first data byte
+			for i := 1; i < len(s.Data)-1; i++ {
+				if i == 32767 || i == 32768 || i == 65535 || i == 65536 {
+					continue
+				}
+				skip[d0+i] = true
+			}
+		}
+	}
+	var out []int
+	for p := 0; p < len(file); p++ {
+		if !skip[p] {
+			out = append(out, p)
+		}
+	}
+	return out
+}
+
+// c13SeedClass is the class an unmutated seed must fall into (vacuity guard: a regression that
+// makes NewReader reject every seed, or the two scans disagree on every seed, must not pass).
+func c13SeedClass(cs C13Case, hdrBody, largest uint64) string {
+	v2 := strings.HasPrefix(cs.Cont, "v2")
+	switch {
+	case cs.MaxHdr != 0 && cs.MaxHdr < hdrBody:
+		// a CARv1 is not even opened; a CARv2 is (its pragma is 10 bytes) and Inspect must refuse
+		if v2 {
+			return "both-reject"
+		}
+		return "not-a-container"
+	case cs.MaxSect != 0 && cs.MaxSect < largest:
+		return "both-reject"
+	case (cs.Cont == "v1null" || cs.Cont == "v2null") && !cs.ZeroEOF:
+		return "both-reject"
+	}
+	return "both-accept"
+}
+
+func runC13(c any, x *kit.Ctx) {
+	cs := c.(C13Case)
+	file, base, pl, hdrBody, largest := c13Build(cs)
 	apply := func(m C13Mut) []byte {
 		if m.Kind == "trunc" {
 			return file[:m.Pos]
@@ -283,69 +691,205 @@ func runC13(c any, x *kit.Ctx) {
 		}
 		return out
 	}
+	cf := &c13File{path: filepath.Join(x.Dir, "c13.car")}
+	defer cf.close()
 	if cs.Mut != nil {
-		c13Check(x, cs, apply(*cs.Mut), cs.Mut)
+		c13Check(x, cs, cf, apply(*cs.Mut), cs.Mut)
 		return
 	}
-	c13Check(x, cs, file, nil)
-	n := 0
-	for p := 0; p < len(file); p++ {
+	got := c13Check(x, cs, cf, file, nil)
+	if exp := c13SeedClass(cs, hdrBody, largest); got != exp && got != "fail" {
+		x.Fail("c13:seed:class:"+exp+":"+got, "the unmutated seed is classified %s, expected %s: the comparison would be vacuous", got, exp)
+	}
+	n, amb := 0, 0
+	one := func(m C13Mut) {
+		if c13Check(x, cs, cf, apply(m), &m) == "oracle-ambiguous" {
+			amb++
+		}
+		n++
+	}
+	for _, p := range c13Positions(cs, file, base, pl) {
 		for _, v := range c13Vals {
 			if v >= 0 && int(file[p]) == v {
 				continue
 			}
-			m := C13Mut{Kind: "set", Pos: p, Val: v}
-			c13Check(x, cs, apply(m), &m)
-			n++
+			one(C13Mut{Kind: "set", Pos: p, Val: v})
 		}
-		m := C13Mut{Kind: "trunc", Pos: p}
-		c13Check(x, cs, apply(m), &m)
-		n++
+		one(C13Mut{Kind: "trunc", Pos: p})
+	}
+	// vacuity guard: the inputs excluded because the two scans disagree stay a minority
+	if amb*2 > n {
+		x.Fail("c13:vacuity:ambiguous", "%d of %d mutants of this seed were excluded as oracle-ambiguous", amb, n)
 	}
 	x.Count("mutants", n)
-	x.State(fmt.Sprintf("%s|%v|%d|%x", cs.Cont, cs.ZeroEOF, cs.MaxSect, file))
-	_ = io.EOF
+	x.State(fmt.Sprintf("%s|%v|%d|%d|%x", cs.Cont, cs.ZeroEOF, cs.MaxSect, cs.MaxHdr, file))
+}
+
+var c13Conts = []string{"v1", "v2", "v2idx", "v2idxpad", "v1null", "v2null", "v2trail"}
+var c13Conts5 = []string{"v1", "v2", "v2idx", "v2idxpad", "v1null"}
+
+// c13Limits enumerates (MaxSect, MaxHdr) for a seed; L = its largest section, H = its header body.
+//
+//	none : defaults only                      sect : MaxSect in {default, L, L-1}
+//	hdr  : MaxHdr in {H, H-1}                 cross: both set, {L, L-1} x {H, H-1}
+func c13Limits(roots string, sq []string, mode string) [][2]uint64 {
+	_, _, _, H, L := c13Build(C13Case{Roots: roots, Seq: sq, Cont: "v1"})
+	var out [][2]uint64
+	for _, m := range strings.Split(mode, "+") {
+		switch m {
+		case "none":
+			out = append(out, [2]uint64{0, 0})
+		case "sect":
+			out = append(out, [2]uint64{0, 0})
+			if L > 1 {
+				out = append(out, [2]uint64{L, 0}, [2]uint64{L - 1, 0})
+			}
+		case "hdr":
+			out = append(out, [2]uint64{0, H}, [2]uint64{0, H - 1})
+		case "cross":
+			if L > 1 {
+				out = append(out, [2]uint64{L, H}, [2]uint64{L, H - 1}, [2]uint64{L - 1, H}, [2]uint64{L - 1, H - 1})
+			}
+		default:
+			panic("limit mode " + m)
+		}
+	}
+	return out
+}
+
+// c13Group is one explicit sub-product of the enumeration.
+type c13Group struct {
+	seqs    [][]string
+	roots   []string
+	conts   []string
+	lim     string
+	files   func(roots string, sq []string) int  // Files for the default-limit cases (nil = 1)
+	varsAll bool                                 // source/call-order variants under every limit (else: default limits only)
+	plain   func(roots string, sq []string) bool // seeds that get neither the variants nor the file-backed entry points
+	mutSet  string
+}
+
+func c13ShortSeqs(seqs [][]string, maxLen int) [][]string {
+	var out [][]string
+	for _, s := range seqs {
+		if len(s) <= maxLen {
+			out = append(out, s)
+		}
+	}
+	return out
 }
 
 func genC13(tier string, emit func(any)) {
-	names := []string{"a", "e", "a0", "i", "s", "t"}
-	maxLen := 2
-	if tier == "thorough" {
-		names = append(names, "b", "a'", "t", "k", "ia")
-		maxLen = 2
-	}
-	var seqs [][]string
-	kit.Seqs(names, maxLen, func(s []string) { seqs = append(seqs, s) })
-	seqs = append(seqs, []string{"L128"}, []string{"a", "b", "a"})
-	if tier == "thorough" {
-		seqs = append(seqs, []string{"a", "s", "e", "a0"}, []string{"L127", "L128"})
-	}
-	for _, sq := range seqs {
-		for _, rs := range []string{"a", "aa", "ab", "empty", "absent"} {
-			if tier != "thorough" && rs != "a" && len(sq) > 1 {
-				continue
-			}
-			for _, cont := range []string{"v1", "v2", "v2idx", "v2idxpad", "v1null"} {
-				for _, z := range []bool{false, true} {
-					// section size limits: default, exactly the largest section, one below
-					largest := uint64(0)
-					for _, n := range sq {
-						b := kit.B(n)
-						if l := uint64(len(b.Raw) + len(b.Data)); l > largest {
-							largest = l
+	seen := map[string]bool{}
+	run := func(g c13Group) {
+		for _, sq := range g.seqs {
+			for _, r := range g.roots {
+				lims := c13Limits(r, sq, g.lim)
+				for _, cont := range g.conts {
+					for _, z := range []bool{false, true} {
+						for _, l := range lims {
+							def := l[0] == 0 && l[1] == 0
+							c := C13Case{Roots: r, Seq: sq, Cont: cont, ZeroEOF: z, MaxSect: l[0], MaxHdr: l[1], MutSet: g.mutSet, Vars: def || g.varsAll}
+							if g.plain != nil && g.plain(r, sq) {
+								c.Vars = false
+							} else if def {
+								// the file-backed entry points run with default limits only
+								c.Files = 1
+								if g.files != nil {
+									c.Files = g.files(r, sq)
+								}
+							}
+							k := fmt.Sprintf("%s|%v|%s|%v|%d|%d", r, sq, cont, z, l[0], l[1])
+							if seen[k] {
+								continue
+							}
+							seen[k] = true
+							emit(c)
 						}
-					}
-					limits := []uint64{0}
-					if largest > 1 {
-						limits = append(limits, largest, largest-1)
-					}
-					for _, ms := range limits {
-						emit(C13Case{Roots: rs, Seq: sq, Cont: cont, ZeroEOF: z, MaxSect: ms})
 					}
 				}
 			}
 		}
 	}
+	seqsOver := func(names []string, extra ...[]string) [][]string {
+		var out [][]string
+		kit.Seqs(names, 2, func(s []string) { out = append(out, s) })
+		return append(out, extra...)
+	}
+	names6 := []string{"a", "e", "a0", "i", "s", "t"}
+	oldRoots := []string{"aa", "ab", "empty", "absent"}
+	newConts := []string{"v2null", "v2trail"}
+	// multi-root seeds for the roots-present bookkeeping (G8) and the new root shapes
+	type rs struct {
+		roots string
+		seq   []string
+	}
+	multi := []rs{
+		{"ab", []string{"a", "b"}}, {"ab", []string{"b", "a"}}, {"aa", []string{"a", "a"}}, {"absent", []string{"a", "b"}},
+		{"r4", []string{"a", "b", "c", "s"}}, {"r4", []string{"s", "c", "b"}}, {"a0", []string{"a", "a0"}},
+	}
+	if tier != "thorough" {
+		seqs6 := seqsOver(names6, []string{"L128"}, []string{"a", "b", "a"})
+		// the original matrix; of the 36 two-block sequences only 7 get the variants and file-backed
+		// entry points (the thorough tier gives them to all)
+		richPairs := map[string]bool{"a,e": true, "e,a": true, "a,s": true, "s,a0": true, "i,t": true, "t,i": true, "a,a": true}
+		plain := func(_ string, sq []string) bool { return len(sq) == 2 && !richPairs[strings.Join(sq, ",")] }
+		run(c13Group{seqs: seqs6, roots: []string{"a"}, conts: c13Conts5, lim: "sect", plain: plain})
+		run(c13Group{seqs: c13ShortSeqs(seqs6, 1), roots: oldRoots, conts: c13Conts5, lim: "sect"})
+		// blocks with a multi-byte hash code (k), a multi-byte codec (j), an empty identity digest (i0)
+		run(c13Group{seqs: [][]string{{"k"}, {"j"}, {"i0"}}, roots: []string{"a"}, conts: c13Conts5, lim: "sect"})
+		run(c13Group{seqs: [][]string{{"a", "j"}, {"j", "k"}, {"k", "a"}, {"i0", "a"}, {"a", "i0"}, {"j", "j"}}, roots: []string{"a"}, conts: []string{"v1", "v2idx"}, lim: "none"})
+		// null padding inside DataSize / trailing bytes after an index-less payload
+		run(c13Group{seqs: [][]string{{}, {"a"}, {"e"}, {"a0"}, {"i"}, {"s"}, {"t"}, {"k"}, {"j"}, {"i0"}}, roots: []string{"a"}, conts: newConts, lim: "sect"})
+		run(c13Group{seqs: [][]string{{"a", "b", "a"}, {"a", "e"}}, roots: []string{"a"}, conts: newConts, lim: "none"})
+		// header-size limit (1- and 2-byte header varints)
+		run(c13Group{seqs: [][]string{{}, {"a"}, {"e"}}, roots: []string{"a", "empty", "ab", "r4", "s"}, conts: []string{"v1", "v2", "v2idx", "v2null"}, lim: "hdr"})
+		run(c13Group{seqs: [][]string{{"a"}}, roots: []string{"a", "r4"}, conts: []string{"v1", "v2idx"}, lim: "cross"})
+		// root shapes: CIDv0, 68-byte CID, identity CID, four roots
+		run(c13Group{seqs: [][]string{{}, {"a"}, {"a0"}, {"s"}, {"i"}, {"e"}}, roots: []string{"a0", "s", "i", "r4"}, conts: []string{"v1", "v2idx", "v2idxpad"}, lim: "none"})
+		for _, m := range multi {
+			run(c13Group{seqs: [][]string{m.seq}, roots: []string{m.roots}, conts: []string{"v1", "v2idx"}, lim: "none"})
+		}
+		// sections with a 3-byte length varint / data larger than the 32 KiB copy chunk and than 64 KiB
+		run(c13Group{seqs: [][]string{{"L16384"}}, roots: []string{"a"}, conts: []string{"v1", "v2idx"}, lim: "none", mutSet: "struct"})
+		run(c13Group{seqs: [][]string{{"L70000"}}, roots: []string{"a"}, conts: []string{"v2"}, lim: "none", mutSet: "struct"})
+		return
+	}
+	names11 := append(append([]string{}, names6...), "b", "a'", "k", "ia", "j")
+	seqs11 := seqsOver(names11, []string{"L128"}, []string{"a", "b", "a"}, []string{"a", "s", "e", "a0"}, []string{"L127", "L128"}, []string{"a", "j", "k", "i0"})
+	short11 := append(c13ShortSeqs(seqs11, 1), []string{"i0"})
+	allFiles := func(r string, sq []string) int {
+		if r == "a" && len(sq) <= 1 {
+			return 2
+		}
+		return 1
+	}
+	// the original matrix (over one more block name)
+	run(c13Group{seqs: short11, roots: append([]string{"a"}, oldRoots...), conts: c13Conts, lim: "sect", files: allFiles, varsAll: true})
+	// (longer sequences under the other root lists: single Inspect over bytes.Reader only)
+	run(c13Group{seqs: seqs11, roots: append([]string{"a"}, oldRoots...), conts: c13Conts5, lim: "sect", plain: func(r string, _ []string) bool { return r != "a" }})
+	run(c13Group{seqs: seqs11, roots: []string{"a"}, conts: newConts, lim: "sect"})
+	// the empty identity digest next to every other block
+	var i0 [][]string
+	for _, n := range names11 {
+		i0 = append(i0, []string{"i0", n}, []string{n, "i0"})
+	}
+	i0 = append(i0, []string{"i0", "i0"})
+	run(c13Group{seqs: i0, roots: []string{"a"}, conts: c13Conts, lim: "sect"})
+	// header-size limit, alone and crossed with the section-size limit
+	run(c13Group{seqs: [][]string{{}, {"a"}}, roots: []string{"a", "r4"}, conts: c13Conts, lim: "hdr+cross", varsAll: true})
+	run(c13Group{seqs: short11, roots: []string{"a", "empty", "ab", "r4", "s", "nil"}, conts: c13Conts, lim: "hdr+cross"})
+	// root shapes
+	newRoots := []string{"a0", "s", "i", "r4", "nil"}
+	run(c13Group{seqs: short11, roots: newRoots, conts: c13Conts, lim: "sect"})
+	run(c13Group{seqs: c13ShortSeqs(seqsOver([]string{"a", "a0", "s", "i", "b", "c"}), 2), roots: newRoots, conts: []string{"v1", "v2idx", "v2idxpad"}, lim: "none"})
+	for _, m := range multi {
+		run(c13Group{seqs: [][]string{m.seq}, roots: []string{m.roots}, conts: c13Conts, lim: "sect"})
+	}
+	// large sections
+	run(c13Group{seqs: [][]string{{"L16383"}, {"L16384"}, {"L40000"}}, roots: []string{"a"}, conts: c13Conts, lim: "sect", mutSet: "struct"})
+	run(c13Group{seqs: [][]string{{"L70000"}}, roots: []string{"a"}, conts: []string{"v1", "v2", "v2idx", "v2null"}, lim: "sect", mutSet: "struct"})
+	run(c13Group{seqs: [][]string{{"a", "L40000", "e"}, {"L70000", "a"}}, roots: []string{"a", "r4"}, conts: []string{"v1", "v2idx"}, lim: "none", mutSet: "struct"})
 }
 
 func init() {
@@ -354,11 +898,33 @@ func init() {
 		Gen:    genC13,
 		Run:    runC13,
 		Decode: kit.DecodeAs[C13Case],
-		Rule: "every seed archive up to the bound (CARv1, null-padded, CARv2 with/without index, padded; root lists incl. duplicate and absent roots) with 0 deviations and EVERY 1-deviation neighbour (each byte set to 00/01/7f/80/ff/+1/-1, every truncation) x ZeroLengthSectionAsEOF x section-size limit {default, exact, exact-1}; " +
-			"for each input NewReader accepts, Inspect(true) is compared with the hash-verifying scan (library BlockReader, cross-checked by the reference scan; disagreements between the two scans are counted as oracle-ambiguous and excluded); non-trivial = distinct input accepted by both",
+		Rule: "every seed archive of the enumerated sub-products (see bound; containers CARv1, null-padded, CARv2 with/without index, padded, null padding inside DataSize, trailing bytes after an index-less payload; root lists incl. duplicate, absent, CIDv0, 68-byte, identity, nil and 4 roots (2-byte header varint); blocks incl. CIDv0, identity with empty digest, truncated digest, sha2-512, 3-byte hash-code varint, 2-byte codec varint; sections of 16 KiB, 40 KiB and 70 KiB) with 0 deviations and EVERY 1-deviation neighbour (each byte set to 00/01/7f/80/ff/+1/-1, every truncation; for the >=16 KiB sections only structural positions) x ZeroLengthSectionAsEOF x (section-size limit, header-size limit) in {default, exact, exact-1}; " +
+			"for each input NewReader accepts, Inspect(true) is compared with the hash-verifying scan (library BlockReader, cross-checked by the reference scan; disagreements between the two scans are counted as oracle-ambiguous and excluded): verdict and every statistic, version and CARv2 header taken from the bytes, zero Header for a CARv1. " +
+			"In the cases marked vars each such input is also observed through: a second Inspect on the same Reader, Inspect(false) after it (when the scan succeeds), Roots() before Inspect, a partial DataReader read before Inspect, a ReaderAt-only source and a ReaderAt that returns io.EOF together with the last bytes; in the cases marked files additionally through *os.File, OpenReader (mmap) and every field of cmd/car/lib.InspectCar's Report (ZeroLengthSectionAsEOF cases). " +
+			"Unmutated seeds must fall in their expected class; non-trivial = distinct input accepted by both",
 		Bound: func(tier string) map[string]any {
-			return map[string]any{"deviations": 1, "byte_values": 7, "truncations": "all offsets"}
+			b := map[string]any{"deviations": 1, "byte_values": 7, "truncations": "all offsets (structural offsets for sections >= 16 KiB: framing, header, length varints, CIDs, first/last data byte, data bytes around 32 KiB and 64 KiB)",
+				"containers": c13Conts, "sources": []string{"bytes", "at", "eofat", "osfile", "mmap", "lib.InspectCar"},
+				"call_orders": []string{"inspect", "inspect;inspect", "inspect;inspect;inspect(false)", "roots;inspect", "datareader-partial;inspect"}}
+			if tier == "thorough" {
+				b["seeds"] = "all sequences of length <= 2 over 11 block names (+5 longer) x roots {a,aa,ab,empty,absent} x 5 containers; the same sequences x roots a x {v2null,v2trail}; <=1 block x all 10 root lists x 7 containers; i0 next to every block; 36 pairs over {a,a0,s,i,b,c} x roots {a0,s,i,r4,nil} x 3 containers; 7 multi-root seeds; large sections L16383/L16384/L40000 x 7 containers, L70000 x 4, two mixed"
+				b["limits"] = "section limit {default, exact, exact-1} everywhere; header limit {exact, exact-1} alone and crossed with the section limit for seeds of <= 1 block x roots {a,empty,ab,r4,s,nil}"
+				b["vars"] = "default-limit cases of every group (roots a only for the two-block sequences); every limit for seeds of <= 1 block x roots {a,aa,ab,empty,absent}, and for {[],[a]} x roots {a,r4} under the header limits"
+				b["files"] = "default-limit cases that have vars: seed, every truncation, every scan-accepted mutant (ZeroEOF); every input NewReader accepts for seeds of <= 1 block with roots a"
+			} else {
+				b["seeds"] = "all sequences of length <= 2 over 6 block names (+L128, a-b-a) x roots a x 5 containers; <=1 block x roots {aa,ab,empty,absent}; k, j, i0 singly and in 6 pairs; 10 seeds of <= 1 block (+2 longer) x {v2null,v2trail}; <=1 block over {a,a0,s,i,e} x roots {a0,s,i,r4} x 3 containers; 7 multi-root seeds x 2 containers; L16384 x {v1,v2idx}, L70000 x v2"
+				b["limits"] = "section limit {default, exact, exact-1}; header limit {exact, exact-1} for {[],[a],[e]} x roots {a,empty,ab,r4,s} x 4 containers; both limits set for [a] x roots {a,r4} x 2 containers"
+				b["vars"] = "default-limit cases, except 29 of the 36 two-block sequences"
+				b["files"] = "the default-limit cases that have vars: seed, every truncation, every scan-accepted mutant (ZeroEOF)"
+			}
+			return b
 		},
-		Assumptions: []string{"the corruption half is a coverage statement over the 1-deviation neighbourhood of the seeds, not over all byte strings", "inputs on which the two scans disagree (e.g. inner header version != 1) are excluded as oracle-ambiguous and counted in coverage.oracle_ambiguous"},
+		Assumptions: []string{"the corruption half is a coverage statement over the 1-deviation neighbourhood of the seeds, not over all byte strings",
+			"inputs on which the two scans disagree (e.g. inner header version != 1) are excluded as oracle-ambiguous and counted in coverage.oracle_ambiguous; a seed with more than half of its mutants excluded fails the run",
+			"source kinds other than bytes.Reader and call orders other than a single Inspect are judged against the same oracle, only for inputs that NewReader accepts over bytes.Reader and whose primary observation is right; an input the other source's NewReader rejects is counted (src_open_rejects), not judged, unless it is an unmutated seed",
+			"call orders are crossed with the bytes.Reader source only; source kinds with the single-Inspect order only; the file-backed entry points run with default limits only",
+			"lib.InspectCar on a CARv1 with full validation hits C19's known finding (the trailing-data probe reads from the handle position, 0); exactly that error is set aside and the call repeated with the handle positioned at the end of the file",
+			"Inspect(false) is compared only when the verifying scan succeeds (skip mode cannot detect what full validation detects)",
+			"error classes (io.ErrUnexpectedEOF vs others) and the Stats returned together with an error are not part of the statement and not judged"},
 	})
 }
